@@ -492,6 +492,20 @@ def _storage(p):
                                        lambda a: wfslib.findActiveSubaps(subaps, a.astype(bool), thr), mask, 1e-12,
                                        sub="subaps=%d:thr=%g:bool" % (subaps, thr), kinds=(), with_layouts=True)
             o.stat("lib_calls", n)
+    # boolean masks (pupil > 0) and narrow integer masks with many pixels per sub-aperture (a per-cell sum that is
+    # taken in the mask's own dtype saturates / wraps): against the same mask stored as float64
+    for size, r_out, r_in, subaps_list in ((12, 5.5, 1.5, (2, 3, 4, 6)), (64, 30.0, 9.0, (2, 4, 8)), (96, 44.0, 0.0, (3, 4, 6))):
+        mk = numpy.array(pupil.circle(r_out, size) - (pupil.circle(r_in, size, (2, -1)) if r_in else 0))
+        for subaps in subaps_list:
+            for thr in (0.0, 0.3, 0.5, 1.0):
+                want = wfslib.findActiveSubaps(subaps, mk.astype(float), thr, returnFill=True)
+                for dt in (bool, numpy.uint8, numpy.int8, numpy.int16, numpy.float32):
+                    got = wfslib.findActiveSubaps(subaps, mk.astype(dt), thr, returnFill=True)
+                    o.stat("lib_calls", 1)
+                    ok = len(got) == len(want) and all(numpy.asarray(g).shape == numpy.asarray(w).shape and
+                                                       numpy.allclose(numpy.asarray(g, dtype=float), numpy.asarray(w, dtype=float), rtol=0, atol=1e-6)
+                                                       for g, w in zip(got, want))
+                    o.check("selection_independent_of_mask_storage", ok, sub="size=%d:subaps=%d:thr=%g:%s" % (size, subaps, thr, numpy.dtype(dt).name))
     pos = numpy.array([[0., 0.], [3., 3.], [6., 3.], [9., 9.]])
     n = variants.check_storage(o, "selection_independent_of_mask_storage",
                                lambda a: wfslib.computeFillFactor(a, pos, 3), mask, 1e-12, sub="fill", kinds=kinds)
